@@ -16,6 +16,7 @@ import (
 	"time"
 	"unicode"
 	"unicode/utf8"
+	"unsafe"
 
 	"golang.org/x/tools/go/ssa"
 )
@@ -316,6 +317,30 @@ func init() {
 	externals["fmt.Errorf"] = func(m *Machine, fr *frame, a []value) value {
 		return m.errorf(a[0], a[1].([]value))
 	}
+	// fmt.Fprint* into a *strings.Builder
+	fprint := func(kind string) externalFn {
+		return func(m *Machine, fr *frame, a []value) value {
+			w, ok := a[0].(iface)
+			if !ok || w.t == nil || w.t.String() != "*strings.Builder" {
+				panic(unsupported{"fmt.F" + kind + " into a writer other than *strings.Builder"})
+			}
+			var text value
+			switch kind {
+			case "printf":
+				text = m.sprintf(a[1], a[2].([]value))
+			case "print":
+				text = m.sprint(a[1].([]value))
+			default:
+				text = m.binop(token.ADD, types.Typ[types.String], types.Typ[types.String], m.sprint(a[1].([]value)), "\n")
+			}
+			b := builderBuf(m, w.v)
+			*b = append((*b).([]value), strBytes(text)...)
+			return tuple{strLen(text), iface{}}
+		}
+	}
+	externals["fmt.Fprintf"] = fprint("printf")
+	externals["fmt.Fprint"] = fprint("print")
+	externals["fmt.Fprintln"] = fprint("println")
 	for _, n := range []string{"fmt.Println", "fmt.Printf", "fmt.Print"} {
 		externals[n] = func(m *Machine, fr *frame, a []value) value { return tuple{0, iface{}} }
 	}
@@ -335,6 +360,23 @@ func init() {
 	// time
 	externals["time.Parse"] = func(m *Machine, fr *frame, a []value) value {
 		return m.timeParse(a[0], a[1])
+	}
+	// time.Time methods and time.Date on concrete values: native call-through
+	for _, name := range []string{"Year", "Month", "Day", "Hour", "Minute", "Second", "Nanosecond", "Weekday", "YearDay", "UTC", "UnixNano", "UnixMilli",
+		"Format", "Equal", "Before", "After", "Add", "Sub", "Truncate", "Round", "IsZero", "AddDate", "In", "Date", "Clock", "ISOWeek", "String"} {
+		name := name
+		externals["(time.Time)."+name] = func(m *Machine, fr *frame, a []value) value {
+			return m.nativeTimeMethod(name, a)
+		}
+	}
+	externals["time.Date"] = func(m *Machine, fr *frame, a []value) value {
+		for _, x := range a[:7] {
+			if isSym(x) {
+				panic(unsupported{"time.Date on symbolic fields"})
+			}
+		}
+		t := time.Date(int(asInt64(a[0])), time.Month(asInt64(a[1])), int(asInt64(a[2])), int(asInt64(a[3])), int(asInt64(a[4])), int(asInt64(a[5])), int(asInt64(a[6])), m.nativeLoc(a[7]))
+		return m.fromNativeTime(t)
 	}
 	externals["time.Now"] = func(m *Machine, fr *frame, a []value) value {
 		panic(unsupported{"time.Now"})
@@ -726,7 +768,7 @@ func (m *Machine) placeholderFor(v value) string {
 func (m *Machine) sprintf(format value, args []value) value {
 	f, ok := format.(string)
 	if !ok {
-		panic(unsupported{"symbolic format string"})
+		return m.sprintfSymFormat(strBytes(format), args)
 	}
 	// symbolic strings are spliced in for plain %s / %v verbs (Dump builds its text this way);
 	// everything else is formatted natively, one verb at a time
@@ -788,6 +830,56 @@ func (m *Machine) sprintf(format value, args []value) value {
 		}
 		emit(fmt.Sprintf(verb, m.nativeArg(m.curFrame, a)))
 	}
+	return mkStr(out)
+}
+
+// sprintfSymFormat formats with a format string that contains symbolic bytes. A byte
+// that is not '%' is copied; on the branch where a symbolic byte IS '%' the verb is
+// rendered the way fmt renders a verb without operand ("%!c(MISSING)", "%%" → "%") — any
+// such text differs from a verbatim copy, which is what matters to the callers.
+func (m *Machine) sprintfSymFormat(f []value, args []value) value {
+	var out []value
+	isPct := func(b value) bool {
+		if c, ok := b.(uint8); ok {
+			return c == '%'
+		}
+		return m.branch(m.ts.Eq(m.toTerm(b), m.ts.BVConst('%', 8)))
+	}
+	argi := 0
+	for i := 0; i < len(f); i++ {
+		if !isPct(f[i]) {
+			out = append(out, f[i])
+			continue
+		}
+		if i+1 >= len(f) {
+			out = append(out, strBytes("%!(NOVERB)")...)
+			break
+		}
+		i++
+		if isPct(f[i]) {
+			out = append(out, uint8('%'))
+			continue
+		}
+		if c, ok := f[i].(uint8); ok && (c == 's' || c == 'v') && argi < len(args) {
+			a := args[argi]
+			argi++
+			if it, isI := a.(iface); isI {
+				if ss, isS := it.v.(sstr); isS {
+					out = append(out, ss.b...)
+					continue
+				}
+			}
+			out = append(out, strBytes(fmt.Sprintf("%"+string(c), m.nativeArg(m.curFrame, a)))...)
+			continue
+		}
+		out = append(out, strBytes("%!")...)
+		out = append(out, f[i])
+		out = append(out, strBytes("(MISSING)")...)
+	}
+	if argi < len(args) {
+		out = append(out, strBytes("%!(EXTRA)")...)
+	}
+	m.stubsUsed["fmt formatting with a symbolic format string → bytes copied, '%' branches rendered as fmt renders verbs without operand"]++
 	return mkStr(out)
 }
 
@@ -948,12 +1040,119 @@ func (m *Machine) timeParse(layout, s value) value {
 		if err != nil {
 			return tuple{zeroTime(), m.newError(err.Error())}
 		}
-		rv := reflect.ValueOf(t)
-		wall := rv.Field(0).Uint()
-		ext := rv.Field(1).Int()
-		return tuple{structure{wall, ext, (*value)(nil)}, iface{}}
+		return tuple{m.fromNativeTime(t), iface{}}
 	}
 	panic(unsupported{"time.Parse on symbolic text"})
+}
+
+type timeRepr struct {
+	wall uint64
+	ext  int64
+	loc  *time.Location
+}
+
+// nativeLoc maps an interpreted *time.Location to a native one (locations created by the
+// native time.Parse are remembered; everything else, incl. time.UTC and nil, is UTC).
+func (m *Machine) nativeLoc(v value) *time.Location {
+	p, _ := v.(*value)
+	if p == nil {
+		return time.UTC
+	}
+	if l, ok := m.sh.locTable.Load(p); ok {
+		return l.(*time.Location)
+	}
+	return time.UTC
+}
+
+func (m *Machine) toNativeTime(v value) (time.Time, bool) {
+	st, ok := v.(structure)
+	if !ok || len(st) != 3 {
+		return time.Time{}, false
+	}
+	wall, ok1 := st[0].(uint64)
+	ext, ok2 := st[1].(int64)
+	if !ok1 || !ok2 {
+		return time.Time{}, false
+	}
+	tr := timeRepr{wall: wall, ext: ext}
+	if p, _ := st[2].(*value); p != nil {
+		tr.loc = m.nativeLoc(p)
+		if tr.loc == time.UTC {
+			tr.loc = nil
+		}
+	}
+	return *(*time.Time)(unsafe.Pointer(&tr)), true
+}
+
+func (m *Machine) fromNativeTime(t time.Time) value {
+	tr := *(*timeRepr)(unsafe.Pointer(&t))
+	loc := (*value)(nil)
+	if tr.loc != nil && tr.loc != time.UTC {
+		loc = new(value)
+		*loc = structure{}
+		m.sh.locTable.Store(loc, tr.loc)
+	}
+	return structure{tr.wall &^ (1 << 63), tr.ext, loc}
+}
+
+// nativeTimeMethod calls a method of a concrete time.Time natively.
+func (m *Machine) nativeTimeMethod(name string, a []value) value {
+	t, ok := m.toNativeTime(a[0])
+	if !ok {
+		return notHandled
+	}
+	meth := reflect.ValueOf(t).MethodByName(name)
+	mt := meth.Type()
+	in := make([]reflect.Value, mt.NumIn())
+	for i := 0; i < mt.NumIn(); i++ {
+		arg := a[i+1]
+		if isSym(arg) {
+			return notHandled
+		}
+		pt := mt.In(i)
+		switch pt.Kind() {
+		case reflect.Int, reflect.Int64, reflect.Int32:
+			in[i] = reflect.ValueOf(asInt64(arg)).Convert(pt)
+		case reflect.String:
+			in[i] = reflect.ValueOf(arg.(string))
+		case reflect.Struct:
+			at, ok := m.toNativeTime(arg)
+			if !ok {
+				return notHandled
+			}
+			in[i] = reflect.ValueOf(at)
+		case reflect.Ptr:
+			in[i] = reflect.ValueOf(m.nativeLoc(arg))
+		default:
+			return notHandled
+		}
+	}
+	outs := meth.Call(in)
+	conv := func(o reflect.Value) value {
+		switch o.Kind() {
+		case reflect.Int:
+			return int(o.Int())
+		case reflect.Int64:
+			return o.Int()
+		case reflect.Int32:
+			return int32(o.Int())
+		case reflect.Bool:
+			return o.Bool()
+		case reflect.String:
+			return o.String()
+		case reflect.Struct:
+			return m.fromNativeTime(o.Interface().(time.Time))
+		}
+		panic(unsupported{"result kind of (time.Time)." + name})
+	}
+	if len(outs) == 1 {
+		return conv(outs[0])
+	}
+	res := make(tuple, len(outs))
+	for i, o := range outs {
+		res[i] = conv(o)
+	}
+	return res
 }
 
 func zeroTime() value { return structure{uint64(0), int64(0), (*value)(nil)} }
